@@ -56,6 +56,7 @@ type Term struct {
 	name string   // OpVar
 	hi   int      // OpExtract hi / ext amount
 	lo   int      // OpExtract lo
+	vmask uint64  // bloom set of the variables occurring in the term
 }
 
 type TermStore struct {
@@ -63,6 +64,7 @@ type TermStore struct {
 	terms []*Term
 	masks map[int]*big.Int
 	signedVar map[string]bool // hint for the Int-mode printer
+	rngMemo map[int]ivl
 	True  *Term
 	False *Term
 }
@@ -106,6 +108,12 @@ func (ts *TermStore) mk(t *Term) *Term {
 		return o
 	}
 	t.id = len(ts.terms)
+	if t.op == OpVar {
+		t.vmask = 1 << (uint(t.id) % 64)
+	}
+	for _, a := range t.args {
+		t.vmask |= a.vmask
+	}
 	ts.terms = append(ts.terms, t)
 	ts.tab[k] = t
 	return t
@@ -276,6 +284,24 @@ func (ts *TermStore) Eq(a, b *Term) *Term {
 	if a.IsConst() && b.op == OpIte && (b.args[1].IsConst() || b.args[2].IsConst()) {
 		return ts.Ite(b.args[0], ts.Eq(b.args[1], a), ts.Eq(b.args[2], a))
 	}
+	// x + c1 = c2, c1 - x = c2 (modular arithmetic)
+	if b.IsConst() && a.op == OpAdd && a.args[1].IsConst() {
+		return ts.Eq(a.args[0], ts.Const(a.W, new(big.Int).Sub(b.c, a.args[1].c)))
+	}
+	if b.IsConst() && a.op == OpSub && a.args[0].IsConst() {
+		return ts.Eq(a.args[1], ts.Const(a.W, new(big.Int).Sub(a.args[0].c, b.c)))
+	}
+	if a.IsConst() && (b.op == OpAdd || b.op == OpSub) {
+		if (b.op == OpAdd && b.args[1].IsConst()) || (b.op == OpSub && b.args[0].IsConst()) {
+			return ts.Eq(b, a)
+		}
+	}
+	if b.IsConst() && ts.rng(a).hi.Cmp(b.c) < 0 {
+		return ts.False
+	}
+	if b.IsConst() && ts.rng(a).lo.Cmp(b.c) > 0 {
+		return ts.False
+	}
 	// zero-extended vs constant
 	if b.IsConst() && a.op == OpZExt {
 		inner := a.args[0]
@@ -328,6 +354,10 @@ func (ts *TermStore) Add(a, b *Term) *Term {
 	if b.IsConst() && a.op == OpAdd && a.args[1].IsConst() {
 		return ts.Add(a.args[0], ts.Const(a.W, new(big.Int).Add(a.args[1].c, b.c)))
 	}
+	// (c1 - x) + c2 = (c1+c2) - x
+	if b.IsConst() && a.op == OpSub && a.args[0].IsConst() {
+		return ts.Sub(ts.Const(a.W, new(big.Int).Add(a.args[0].c, b.c)), a.args[1])
+	}
 	return ts.mk(&Term{op: OpAdd, W: a.W, args: []*Term{a, b}})
 }
 func (ts *TermStore) Sub(a, b *Term) *Term {
@@ -344,6 +374,16 @@ func (ts *TermStore) Sub(a, b *Term) *Term {
 	// (x + c) - x
 	if a.op == OpAdd && a.args[0] == b {
 		return a.args[1]
+	}
+	if a.IsConst() {
+		// c1 - (c2 - x) = x + (c1-c2)
+		if b.op == OpSub && b.args[0].IsConst() {
+			return ts.Add(b.args[1], ts.Const(a.W, new(big.Int).Sub(a.c, b.args[0].c)))
+		}
+		// c1 - (x + c2) = (c1-c2) - x
+		if b.op == OpAdd && b.args[1].IsConst() {
+			return ts.Sub(ts.Const(a.W, new(big.Int).Sub(a.c, b.args[1].c)), b.args[0])
+		}
 	}
 	return ts.mk(&Term{op: OpSub, W: a.W, args: []*Term{a, b}})
 }
@@ -384,6 +424,11 @@ func (ts *TermStore) UDiv(a, b *Term) *Term {
 	if b.IsConst() && b.c.Cmp(big.NewInt(1)) == 0 {
 		return a
 	}
+	if b.IsConst() {
+		if k, ok := isPow2(b.c); ok {
+			return ts.rawShift(OpLShr, a, ts.ConstU(a.W, uint64(k)))
+		}
+	}
 	return ts.mk(&Term{op: OpUDiv, W: a.W, args: []*Term{a, b}})
 }
 func (ts *TermStore) URem(a, b *Term) *Term {
@@ -394,6 +439,11 @@ func (ts *TermStore) URem(a, b *Term) *Term {
 		}
 		return ts.Const(a.W, new(big.Int).Mod(a.c, b.c))
 	}
+	if b.IsConst() {
+		if _, ok := isPow2(b.c); ok {
+			return ts.BvAnd(a, ts.Const(a.W, new(big.Int).Sub(b.c, big.NewInt(1))))
+		}
+	}
 	return ts.mk(&Term{op: OpURem, W: a.W, args: []*Term{a, b}})
 }
 func (ts *TermStore) SDiv(a, b *Term) *Term {
@@ -401,12 +451,18 @@ func (ts *TermStore) SDiv(a, b *Term) *Term {
 	if a.IsConst() && b.IsConst() && b.c.Sign() != 0 {
 		return ts.Const(a.W, new(big.Int).Quo(signedOf(a.c, a.W), signedOf(b.c, b.W)))
 	}
+	if ts.nonNeg(a) && ts.nonNeg(b) && ts.rng(b).lo.Sign() > 0 {
+		return ts.UDiv(a, b)
+	}
 	return ts.mk(&Term{op: OpSDiv, W: a.W, args: []*Term{a, b}})
 }
 func (ts *TermStore) SRem(a, b *Term) *Term {
 	ts.binCheck(a, b, "SRem")
 	if a.IsConst() && b.IsConst() && b.c.Sign() != 0 {
 		return ts.Const(a.W, new(big.Int).Rem(signedOf(a.c, a.W), signedOf(b.c, b.W)))
+	}
+	if ts.nonNeg(a) && ts.nonNeg(b) && ts.rng(b).lo.Sign() > 0 {
+		return ts.URem(a, b)
 	}
 	return ts.mk(&Term{op: OpSRem, W: a.W, args: []*Term{a, b}})
 }
@@ -572,6 +628,30 @@ func (ts *TermStore) cmp(op Op, a, b *Term) *Term {
 	}
 	if a == b {
 		return ts.Bool(op == OpULe || op == OpSLe)
+	}
+	if op == OpSLt || op == OpSLe {
+		// signed comparison of operands whose sign is known is an unsigned one (or decided)
+		na, nb := ts.nonNeg(a), ts.nonNeg(b)
+		ga, gb := ts.negative(a), ts.negative(b)
+		switch {
+		case (na && nb) || (ga && gb):
+			uop := OpULt
+			if op == OpSLe {
+				uop = OpULe
+			}
+			return ts.cmp(uop, a, b)
+		case ga && nb:
+			return ts.True
+		case na && gb:
+			return ts.False
+		}
+	} else {
+		switch ts.cmpByRange(op, a, b) {
+		case 1:
+			return ts.True
+		case 0:
+			return ts.False
+		}
 	}
 	if op == OpULt && b.IsConst() && b.c.Sign() == 0 {
 		return ts.False
